@@ -205,12 +205,146 @@ def base64(chk, prog, orc):
         pads = [core.describe(prog, b, t["args"][1]) for blk, t in b.calls_to(r"String::push$")]
         npad = sum(1 for d in pads if d == ("lit", 61))
         chk.ob("R1.base64", enc[0], "padding character is '=' (3 pushes: two for 1 leftover byte, one for 2)", npad == 3, f"{npad} '=' pushes")
-        masks = sorted(set(x[3][1] for blk in b.blocks for s in blk["stmts"] if "rv" in s and s["rv"]["k"] == "bin" and s["rv"]["op"] == "BitAnd"
-                           for x in [core.describe_rv(prog, b, s["rv"])] if x[0] == "bin" and x[3][0] == "lit"))
-        chk.ob("R1.base64", enc[0], "6-bit field masks are 0x03, 0x0f, 0x3f", masks == [3, 15, 63], f"{masks}")
-        shs = sorted(set(x[3][1] for blk in b.blocks for s in blk["stmts"] if "rv" in s and s["rv"]["k"] == "bin" and s["rv"]["op"] in ("Shl", "Shr")
-                         for x in [core.describe_rv(prog, b, s["rv"])] if x[0] == "bin" and x[3][0] == "lit"))
-        chk.ob("R1.base64", enc[0], "shift amounts are 2, 4, 6", shs == [2, 4, 6], f"{shs}")
+        # (the bit layout of the encoder is decided exactly by base64_encoder_bits)
+
+
+def base64_encoder_bits(chk, prog, rule="R3.base64_bits"):
+    """RFC 4648 section 4, decided bit by bit (R-BITS) and index by index (R-ARITH): each pushed symbol is ALPHABET[sextet] where the
+    sextet's six bits are exactly the prescribed input bits; full groups are bytes[3g..3g+3] for g in 0..len/3, the tail is
+    bytes[len - len%3..] with one ('xx==') or two ('xxx=') bytes."""
+    from .. import bits, qlin
+    enc = [p for p in prog.bodies if p.endswith("Base64Encode>::encode")]
+    if not enc:
+        return
+    fn = enc[0]
+    b = prog.bodies[fn]
+    be = bits.BitEval(prog, b)
+    runs = {}
+    for blk, t in b.calls_to(r"String::push$"):
+        a = t["args"][1]
+        item = None
+        if a.get("k") == "const":
+            item = ("pad", a.get("v"))
+        else:
+            l = core.op_local(a)
+            ds = b.defs().get(l, [])
+            if len(ds) == 1 and ds[0][2] == "assign" and ds[0][3]["rv"]["k"] == "cast":
+                src = core.op_local(ds[0][3]["rv"]["o"])
+                d2 = b.defs().get(src, [])
+                if len(d2) == 1 and d2[0][2] == "assign" and d2[0][3]["rv"]["k"] == "use" and d2[0][3]["rv"]["o"].get("pl"):
+                    pl = d2[0][3]["rv"]["o"]["pl"]
+                    tab = core.describe(prog, b, pl["l"])
+                    idx = [e for e in pl["p"] if e[0] == "i"]
+                    is_alpha = bool(b.defs().get(pl["l"])) and any(dd[2] == "assign" and dd[3]["rv"]["k"] == "use" and str(dd[3]["rv"]["o"].get("def", "")).endswith("base64::ALPHABET")
+                                                                   for dd in b.defs().get(pl["l"], []))
+                    if is_alpha and len(idx) == 1:
+                        item = ("sym", be.local(idx[0][1]))
+        ctx = tuple((s_, lab) for s_, lab, dd, info in core.guards_dominating(prog, b, blk))
+        runs.setdefault(ctx, []).append((blk, item))
+    chk.floor("Base64 encoder push runs (full group, 1 left over, 2 left over)", len(runs), 3)
+
+    def want(pairs):
+        return [x if x in (0, 1) else ("B", x[0], x[1]) for x in pairs]
+    S0 = want([(0, 2), (0, 3), (0, 4), (0, 5), (0, 6), (0, 7)])
+    S1 = want([(1, 4), (1, 5), (1, 6), (1, 7), (0, 0), (0, 1)])
+    S2 = want([(2, 6), (2, 7), (1, 0), (1, 1), (1, 2), (1, 3)])
+    S3 = want([(2, 0), (2, 1), (2, 2), (2, 3), (2, 4), (2, 5)])
+    S1p = want([0, 0, 0, 0, (0, 0), (0, 1)])
+    S2p = want([0, 0, (1, 0), (1, 1), (1, 2), (1, 3)])
+    SHAPES = {(4, 0): ("full 3-byte group", [S0, S1, S2, S3]), (2, 2): ("one byte left over", [S0, S1p]), (3, 1): ("two bytes left over", [S0, S1, S2p])}
+    seen_shapes = {}
+    for ctx, items in runs.items():
+        items.sort(key=lambda x: sum(1 for y in items if b.dominates(y[0], x[0])))
+        syms = [it for blk, it in items if it and it[0] == "sym"]
+        pads = [it for blk, it in items if it and it[0] == "pad"]
+        other = [blk for blk, it in items if it is None]
+        shape = SHAPES.get((len(syms), len(pads)))
+        where = b.where(items[0][0])
+        if other or shape is None:
+            chk.ob(rule, fn, f"run of {len(items)} pushes is one of: 4 symbols / 2 symbols + '==' / 3 symbols + '='", False,
+                   f"{len(syms)} symbol(s), {len(pads)} constant(s), {len(other)} push(es) that are not ALPHABET[..] lookups", where=where)
+            continue
+        name, exp = shape
+        seen_shapes[name] = ctx
+        order_ok = [it[0] for blk, it in items] == ["sym"] * len(syms) + ["pad"] * len(pads)
+        chk.ob(rule, fn, f"{name}: symbols first, then the padding", order_ok and all(p_[1] == 61 for p_ in pads), f"{[it[0] for blk, it in items]}", where=where)
+        keys = set()
+        for i, (it, ex) in enumerate(zip(syms, exp)):
+            got = it[1]
+            if got is None:
+                chk.ob(rule, fn, f"{name}: symbol {i} index is a pure bit selection", False, "index is not built from element loads, shifts, masks and ors", where=where)
+                continue
+            norm = []
+            for s_ in got:
+                if s_ in (0, 1):
+                    norm.append(s_)
+                elif s_ is None:
+                    norm.append(None)
+                else:
+                    keys.add(s_[1])
+                    norm.append(("B", s_[2], s_[3]))
+            ok = norm[:6] == ex and all(x == 0 for x in norm[6:])
+            chk.ob(rule, fn, f"{name}: symbol {i} = ALPHABET[{' '.join(('b%d.%d' % (x[1], x[2])) if isinstance(x, tuple) else str(x) for x in reversed(ex))}]", ok,
+                   f"index bits (msb first) are [{bits.show(got, 8)}]: the wrong input bits are encoded", where=where)
+        chk.ob(rule, fn, f"{name}: all symbols read the same group slice", len(keys) == 1, f"{sorted(keys)}", where=where)
+    chk.ob(rule, fn, "the three cases (full group, one and two bytes left over) are all present", len(seen_shapes) == 3, f"{sorted(seen_shapes)}")
+
+    # which bytes form a group (R-ARITH over the slice bounds)
+    def is_len(d):
+        d = panics._strip(d)
+        return isinstance(d, tuple) and d[0] == "call" and d[1].endswith("::len")
+
+    def is_next(d):
+        d = panics._strip(d)
+        return isinstance(d, tuple) and ((d[0] == "field" and isinstance(d[1], tuple) and d[1][0] == "call" and d[1][1].endswith("::next")) or (d[0] == "call" and d[1].endswith("::next")))
+
+    def decide(site, d, var_pred, ref, why, where=""):
+        try:
+            e = qlin.from_desc(d, var_pred, strip=panics._strip)
+            ok, wit = qlin.equal_forall(e, ref)
+            chk.ob(rule, fn, site, ok, "" if ok else f"{e.text} differs from {ref.text} at {wit}: {why}", where=where)
+        except qlin.NotQuasiLinear as x:
+            chk.ob(rule, fn, site, False, f"not quasi-linear: {x}", where=where)
+
+    L, G = qlin.var("len"), qlin.var("g")
+    n_sl = 0
+    for blk, t in b.calls_to(r"Index(<[^>]*>)?(>)?::index$"):
+        ix = core.describe(prog, b, t["args"][1])
+        base = core.describe(prog, b, t["args"][0])
+        src_ok = desc_contains(base, lambda y: y[0] == "call" and y[1].endswith("as_ref")) and desc_contains(base, lambda y: y[0] == "param" and y[1] == 1)
+        if ix[0] != "variant" or ix[2] not in ("Range", "RangeFrom"):
+            continue
+        n_sl += 1
+        chk.ob(rule, fn, f"{ix[2]} slice is taken from the input bytes", src_ok, f"{core.short(str(base))[:100]}", where=b.where(blk))
+        if ix[2] == "Range":
+            decide("full group g starts at byte 3g", ix[3][0], is_next, qlin.mul(G, 3), "groups overlap or skip bytes", b.where(blk))
+            decide("full group g ends at byte 3g + 3", ix[3][1], is_next, qlin.add(qlin.mul(G, 3), qlin.const(3)), "a group is not three bytes", b.where(blk))
+        else:
+            decide("the tail starts at byte len - len % 3", ix[3][0], is_len, qlin.mul(qlin.div(L, 3), 3), "the left-over bytes are taken from the wrong offset", b.where(blk))
+    chk.floor("group slices in the Base64 encoder", n_sl, 2)
+    for blk, t in b.calls_to(r"IntoIterator>::into_iter$|IntoIterator::into_iter$"):
+        d = core.describe(prog, b, t["args"][0])
+        if d[0] == "variant" and d[2] == "Range":
+            decide("full groups are g = 0 ..", d[3][0], is_len, qlin.const(0), "", b.where(blk))
+            decide("full groups are g = .. len / 3", d[3][1], is_len, qlin.div(L, 3), "not every full group is encoded", b.where(blk))
+    # the left-over cases are selected by len % 3 == 1 / == 2
+    for name, k in (("one byte left over", 1), ("two bytes left over", 2)):
+        ctx = seen_shapes.get(name)
+        if ctx is None:
+            continue
+        ok = False
+        for s_, lab in ctx:
+            info = core.switch_info(prog, b, s_)
+            d = core.describe(prog, b, b.term(s_)["discr"])
+            if isinstance(d, tuple) and d[0] == "bin" and d[1] == "Eq" and lab == "true":
+                try:
+                    e = qlin.from_desc(d[2], is_len, strip=panics._strip)
+                    rem = qlin.sub(L, qlin.mul(qlin.div(L, 3), 3))
+                    if qlin.equal_forall(e, rem)[0] and d[3] == ("lit", k):
+                        ok = True
+                except qlin.NotQuasiLinear:
+                    pass
+        chk.ob(rule, fn, f"{name}: selected exactly when len % 3 == {k}", ok, "the padding case is chosen by a different condition")
 
 
 def _affine(e):
@@ -567,6 +701,7 @@ def run(chk):
     sha1(chk, prog, orc)
     sha1_padding(chk, prog)
     base64(chk, prog, orc)
+    base64_encoder_bits(chk, prog)
     percent(chk, prog, orc)
     dates(chk, prog, orc)
     no_panic(chk, prog)
